@@ -650,3 +650,70 @@ package kafka
 //@   requires 0 <= sz && sz <= 0xffffffffffff
 //@   modifies r.$rpos
 //@   ensures racct(r, sz, result0)
+
+// ---- messageSetReader: the reader stack charges every byte it takes to the stack in use ----
+//@ spec msacct(r any) bool
+//@   macro
+//@   def r.readerStack == old(r.readerStack) && r.readerStack.reader == old(r.readerStack.reader) && r.readerStack.remain <= old(r.readerStack.remain) && r.readerStack.remain >= 0 && r.readerStack.reader.$rpos == old(r.readerStack.reader.$rpos) + (old(r.readerStack.remain) - r.readerStack.remain)
+//@ spec msok(r any) bool
+//@   macro
+//@   def r.readerStack != nil && r.readerStack.reader != nil && 0 <= r.readerStack.remain && r.readerStack.remain <= 0xffffffffffff
+
+//@ func (*messageSetReader).log
+//@   trusted debug logging
+//@ func (*messageSetReader).readInt8
+//@   requires msok(r)
+//@   modifies *val, r.readerStack.remain, r.readerStack.reader.$rpos
+//@   ensures msacct(r)
+//@   ensures err == nil ==> r.readerStack.remain == old(r.readerStack.remain) - 1
+//@ func (*messageSetReader).readInt16
+//@   requires msok(r)
+//@   modifies *val, r.readerStack.remain, r.readerStack.reader.$rpos
+//@   ensures msacct(r)
+//@   ensures err == nil ==> r.readerStack.remain == old(r.readerStack.remain) - 2
+//@ func (*messageSetReader).readInt32
+//@   requires msok(r)
+//@   modifies *val, r.readerStack.remain, r.readerStack.reader.$rpos
+//@   ensures msacct(r)
+//@   ensures err == nil ==> r.readerStack.remain == old(r.readerStack.remain) - 4
+//@ func (*messageSetReader).readInt64
+//@   requires msok(r)
+//@   modifies *val, r.readerStack.remain, r.readerStack.reader.$rpos
+//@   ensures msacct(r)
+//@   ensures err == nil ==> r.readerStack.remain == old(r.readerStack.remain) - 8
+//@ func (*messageSetReader).readVarInt
+//@   requires msok(r)
+//@   modifies *val, r.readerStack.remain, r.readerStack.reader.$rpos
+//@   ensures msacct(r)
+//@   ensures err == nil ==> r.readerStack.remain < old(r.readerStack.remain)
+//@ func (*messageSetReader).readNewBytes
+//@   requires msok(r)
+//@   option allocbound r.readerStack.remain
+//@   modifies r.readerStack.remain, r.readerStack.reader.$rpos
+//@   ensures msacct(r)
+//@ func (*messageSetReader).readNewString
+//@   requires msok(r)
+//@   option allocbound r.readerStack.remain
+//@   modifies r.readerStack.remain, r.readerStack.reader.$rpos
+//@   ensures msacct(r)
+//@ func (*messageSetReader).readBytesWith
+//@   requires msok(r)
+//@   modifies r.readerStack.remain, r.readerStack.reader.$rpos
+//@   ensures msacct(r)
+//@ func (*messageSetReader).discardBytes
+//@   requires msok(r)
+//@   modifies r.readerStack.remain, r.readerStack.reader.$rpos
+//@   ensures msacct(r)
+//@ func (*messageSetReader).discardN
+//@   requires msok(r)
+//@   modifies r.readerStack.remain, r.readerStack.reader.$rpos
+//@   ensures msacct(r)
+//@ func (*messageSetReader).runFunc
+//@   requires msok(r)
+//@   modifies r.readerStack.remain, r.readerStack.reader.$rpos
+//@   ensures msacct(r)
+//@ func (*messageSetReader).readMessageHeader
+//@   requires msok(r)
+//@   option allocbound r.readerStack.remain
+//@   modifies *header, r.readerStack.remain, r.readerStack.reader.$rpos
+//@   ensures msacct(r)
